@@ -26,10 +26,18 @@ def _consistent(doc):
     return (not dup and not missing and not absent), f"listed twice {dup}; present but unlisted {missing}; listed but absent {absent}"
 
 
-def manifest_history(op2, i2, op3, i3, op1=0, i1=0, **kw):
+def manifest_history3(i2, op3, i3, op1=0, op2=0, **kw):
+    return manifest_history(op2, i2, op3, i3, op1=op1)
+
+
+def manifest_history4(i2, op3, i3, op4, i4, op1=0, op2=0, **kw):
+    return manifest_history(op2, i2, op3, i3, op1=op1, more=((op4, i4),))
+
+
+def manifest_history(op2, i2, op3, i3, op1=0, i1=0, more=(), **kw):
     doc = Document("text")
     notes = []
-    for op, i in ((op1, i1), (op2, i2), (op3, i3)):
+    for op, i in ((op1, i1), (op2, i2), (op3, i3)) + tuple(more):
         name = NAMES[i]
         path = "Pictures/" + name
         if op == 0:
@@ -48,6 +56,13 @@ def manifest_history(op2, i2, op3, i3, op1=0, i1=0, **kw):
         ok, msg = _consistent(doc)
         if not ok:
             notes.append(f"after step ({op},{name}): {msg}")
+    c = doc.clone
+    ok, msg = _consistent(c)
+    if not ok:
+        notes.append(f"clone taken after the history: {msg}")
+    ok, msg = _consistent(doc)
+    if not ok:
+        notes.append(f"original after cloning: {msg}")
     buf = io.BytesIO()
     doc.save(buf)
     z = zipfile.ZipFile(io.BytesIO(buf.getvalue()))
